@@ -1,6 +1,7 @@
 import BbRe.Model.BRL
 import BbRe.Spec.ByteLocks
 import BbRe.Lemmas.BRLUnlockAll
+import BbRe.Lemmas.BRLPanic
 /-!
 # C20 — byte-range locks (lock table part)
 
@@ -123,6 +124,20 @@ unchanged, but not the merged normal form). -/
 theorem wf_preserved_empty_range_counterexample :
     ∃ ls l, WF ls ∧ l.ty = .unlocked ∧ l.start = l.stop ∧ ¬ WF (setList ls l) :=
   ⟨[⟨0, 10, 1, .excl⟩], ⟨5, 5, 1, .unlocked⟩, by decide, rfl, rfl, by decide⟩
+
+/-- The two `panic("New entry has multiple trailing overlapping entries, which is
+impossible")` statements of `Set` are indeed unreachable on a well-formed table
+(the model itself would silently overwrite the trailing part there; see
+`Lemmas/BRLPanic.lean` for the instrumented recursion `setPanics`).  No `Test`
+hypothesis is needed: only the owner's own entries matter. -/
+theorem set_no_panic (ls : List Lock) (l : Lock) (hwf : WF ls) (hl : l.start < l.stop) :
+    setPanics ls l = false :=
+  setPanics_false hwf hl
+
+-- the instrumentation is not vacuous: on a table violating per-owner
+-- disjointness the second trailing part is created and the flag is raised
+example : setPanics [⟨0, 10, 1, .excl⟩, ⟨2, 12, 1, .excl⟩] ⟨4, 6, 1, .shared⟩ = true := by decide
+example : WF exLs ∧ setPanics exLs ⟨21, 25, 2, .shared⟩ = false := by decide
 
 /-! ## `Set` refines the per-byte specification -/
 
